@@ -2,7 +2,10 @@
 
 package client
 
-import "time"
+import (
+	"context"
+	"time"
+)
 
 const vSec = int(time.Second)
 
@@ -157,6 +160,71 @@ func VerifC10Window() {
 			total += charges[j]
 			if j > i {
 				vAssert(total <= (w.stamps[j]-w.stamps[i])+10*vSec+charges[i]+charges[j], "window-bound")
+			}
+		}
+	}
+	vReach("end")
+}
+
+// VerifC10Queued: k lines are already queued when the real send goroutine
+// starts (a burst); what is judged is when each line's bytes reach the socket -
+// the clock reading of the socket write that carried them, however the client
+// groups lines into writes. For every run i..j of consecutive lines:
+// total charge <= time between the two arrivals + 10 s + the two lines' charges.
+// Environment contract: between two consecutive clock readings of the client at
+// most 2 s pass beyond the holds it asked for in between (the machine is not
+// stalled; a hold of d lasts at most d + 2 s).
+func VerifC10Queued() {
+	k := vParam("K", 4)
+	w := vNewWire()
+	w.stamp = true
+	conn := vBareConn(&Config{}, false)
+	conn.sock = w
+	conn.postConnect(nil, false)
+	conn.out = make(chan string, k)
+	charges := make([]int, k)
+	for i := 0; i < k; i++ {
+		n := vC10Lens[vLen("len"+string([]byte{byte('0' + i)}), 0, len(vC10Lens)-1)]
+		charges[i] = vCharge(n)
+		conn.out <- vFill(n)
+	}
+	ctx, cancel := context.WithCancel(context.Background())
+	_ = cancel
+	conn.wg.Add(1)
+	go conn.send(ctx)
+	vRunPending()
+	vDropPending()
+	// environment contract over the whole run
+	nnow, nsleep := vEventCount("now"), vEventCount("sleep")
+	for r := 1; r < nnow; r++ {
+		slack := 2 * vSec
+		lo, hi := vEventPos("now", r-1), vEventPos("now", r)
+		for s := 0; s < nsleep; s++ {
+			if p := vEventPos("sleep", s); p > lo && p < hi {
+				slack += vEventInt("sleep", s)
+			}
+		}
+		vAssume(vEventInt("now", r)-vEventInt("now", r-1) <= slack)
+	}
+	// arrival time of every line: the stamp of the socket write that contained its CRLF
+	var arrival []int
+	for c, chunk := range w.written {
+		for i := 0; i+1 < len(chunk); i++ {
+			if chunk[i] == '\r' && chunk[i+1] == '\n' {
+				arrival = append(arrival, w.stamps[c])
+			}
+		}
+	}
+	vAssert(len(arrival) == k, "every-queued-line-reached-the-socket")
+	if len(arrival) != k {
+		return
+	}
+	for i := 0; i < k; i++ {
+		total := 0
+		for j := i; j < k; j++ {
+			total += charges[j]
+			if j > i {
+				vAssert(total <= (arrival[j]-arrival[i])+10*vSec+charges[i]+charges[j], "window-bound")
 			}
 		}
 	}
